@@ -303,3 +303,45 @@ package scanner
 //@   modifies *
 //@   ensures c == ' ' ==> normal && result == scanContinue
 //@   ensures c != ' ' && !(old(s.boundary) == 0 && c == ':') ==> panics && typeis(pv, errors.DocumentError) && unbox(pv, errors.DocumentError).code == errors.ErrInvalidCharacterInAnnotationObjectKey
+
+// ---- C05/C13: strings in a schema are JSON strings: `"` ends, `\` escapes, control
+// bytes are errors, \u takes exactly four hex digits ----
+//@ func stateInString(s, c)
+//@   props C05 C13
+//@   requires s != nil && 1 <= s.index && s.index <= len(s.data)
+//@   maypanic
+//@   modifies s.step, s.unfinishedLiteral
+//@   ensures panics <==> (c < 32 && c != '"' && c != 92)
+//@   ensures panics ==> typeis(pv, errors.DocumentError)
+//@   ensures normal ==> result == scanContinue
+//@   ensures normal && c == '"' ==> s.step == stateEndValue && !s.unfinishedLiteral
+//@   ensures normal && c == 92 ==> s.step == stateInStringEsc && s.unfinishedLiteral == old(s.unfinishedLiteral)
+//@   ensures normal && c != '"' && c != 92 ==> s.step == old(s.step) && s.unfinishedLiteral == old(s.unfinishedLiteral)
+//@ func stateInStringEscU(s, c)
+//@   props C05 C13
+//@   requires s != nil && 1 <= s.index && s.index <= len(s.data)
+//@   maypanic
+//@   modifies s.step
+//@   ensures panics <==> !isHexDigit(c)
+//@   ensures normal ==> result == scanContinue && s.step == stateInStringEscU1
+//@ func stateInStringEscU1(s, c)
+//@   props C05 C13
+//@   requires s != nil && 1 <= s.index && s.index <= len(s.data)
+//@   maypanic
+//@   modifies s.step
+//@   ensures panics <==> !isHexDigit(c)
+//@   ensures normal ==> result == scanContinue && s.step == stateInStringEscU12
+//@ func stateInStringEscU12(s, c)
+//@   props C05 C13
+//@   requires s != nil && 1 <= s.index && s.index <= len(s.data)
+//@   maypanic
+//@   modifies s.step
+//@   ensures panics <==> !isHexDigit(c)
+//@   ensures normal ==> result == scanContinue && s.step == stateInStringEscU123
+//@ func stateInStringEscU123(s, c)
+//@   props C05 C13
+//@   requires s != nil && s.returnToStep != nil && 1 <= s.index && s.index <= len(s.data)
+//@   maypanic
+//@   modifies s.step, s.returnToStep.vals
+//@   ensures panics <==> (!isHexDigit(c) || old(len(s.returnToStep.vals)) == 0)
+//@   ensures normal ==> result == scanContinue && s.step == old(s.returnToStep.vals[len(s.returnToStep.vals) - 1]) && len(s.returnToStep.vals) == old(len(s.returnToStep.vals)) - 1
